@@ -165,6 +165,20 @@ Theorem resolver_judgement_is_sound : forall pub t, NoDup (mkeys t) ->
 Proof. exact resolver_judgement_sound. Qed.
 Print Assumptions resolver_judgement_is_sound.
 
+(* ... and the kube EventHandler: one accepted step of Check.prop_kube inside the event alphabet
+   ([t] = the addresses of the Endpoints object as last reported): the most recent publication and
+   h.endpoints are exactly the current addresses; a changed address set was published. *)
+Theorem kube_judgement_is_sound : forall t lastpub e pubs eps evs' obs',
+  Check.prop_kube t lastpub (e :: evs') ((pubs, eps) :: obs') = true -> Check.kwf_b t e = true ->
+  let t' := ktruth_step t e in
+  let lp := last pubs lastpub in
+  (forall ip, In ip lp <-> In ip t') /\
+  (forall ip, In ip eps <-> In ip t') /\
+  ((exists ip, ~ (In ip t <-> In ip t')) -> pubs <> []) /\
+  Check.prop_kube t' lp evs' obs' = true.
+Proof. exact kube_step_judgement_sound. Qed.
+Print Assumptions kube_judgement_is_sound.
+
 (* non-vacuity: etcd: put 1=10, put 2=20; a non-exclusive subscriber that showed [10] before and
    shows [10; 20] now, notified once with the final view *)
 Example ex_judgement :
